@@ -52,6 +52,21 @@ pub open spec fn table_decommit_ok(c: &Commitment, queries: Seq<nat>, values: Se
             == Some(c.vector_commitment.commitment_hash@)
 }
 
+pub proof fn lemma_be_chunks(s: Seq<Felt>, chunks: Seq<Vec<u8>>)
+    requires chunks.len() == s.len(), forall|i: int| 0 <= i < s.len() ==> (#[trigger] chunks[i])@ == be32(s[i]@)
+    ensures concat_vecs(chunks) == concat_be32(fv(s))
+    decreases s.len()
+{
+    if s.len() == 0 {
+        assert(concat_vecs(chunks) =~= concat_be32(fv(s)));
+    } else {
+        lemma_be_chunks(s.drop_last(), chunks.drop_last());
+        assert(fv(s).drop_last() =~= fv(s.drop_last()));
+        assert(fv(s).last() == s.last()@);
+        assert(concat_vecs(chunks) =~= concat_vecs(chunks.drop_last()) + chunks.last()@);
+    }
+}
+
 //@repo crates/commitment/src/table/decommit.rs fn table_decommit props=C01,C02,C05 rules=H_into_iter_map_collect
 pub fn table_decommit(
     commitment: Commitment,
@@ -135,8 +150,11 @@ fn generate_vector_queries(
         } else {
             let slice = &values[(i * n_columns as usize)..((i + 1) * n_columns as usize)];
             proof { assert(fv(slice@) =~= fv(values@).subrange(i * n_columns as int, (i + 1) * n_columns as int)); }
-            let mut data = Vec::new();
-            crate::hoist::extend_be_bytes(&mut data, slice);
+            let mut data/*+*/: Vec<u8>/*-*/ = Vec::new();
+            crate::hoist::extend_concat(&mut data, &/*+*/{ let byte_chunks = /*-*/crate::hoist::slice_map(slice, |x/*+*/: &Felt/*-*/| /*+*/-> (o: Vec<u8>) ensures o@ == be32(x@) { let t = /*-*/ x.to_bytes_be().to_vec() /*+*/; proof { assert(t@ =~= be32(x@)); } t }/*-*/)/*+*/;
+                proof { lemma_be_chunks(slice@, byte_chunks@); }
+                byte_chunks }/*-*/);
+            proof { assert(data@ =~= concat_be32(fv(slice@))); }
 
             let mut hasher = {
                 {
